@@ -195,14 +195,52 @@ impl<'g> Cx<'g> {
                     Ty::Tuple(ts) if ts.len() == t.elems.len() => ts.clone(),
                     _ => return self.bail(p.span(), "tuple pattern on a value that is not a tuple of that size"),
                 };
-                let mut parts = Vec::new();
+                // an or-pattern inside a tuple (`(A, X | Y)`) is distributed: `(A, X) | (A, Y)` (Lean has no nested `|`)
+                let mut alts: Vec<Vec<String>> = vec![Vec::new()];
                 let mut binds = Vec::new();
                 for (e, ty) in t.elems.iter().zip(tys.iter()) {
-                    let (s, b) = self.pat(e, ty)?;
-                    parts.push(s);
-                    binds.extend(b);
+                    let mut inner: &syn::Pat = e;
+                    while let syn::Pat::Paren(pp) = inner {
+                        inner = &pp.pat;
+                    }
+                    let choices: Vec<String> = if let syn::Pat::Or(o) = inner {
+                        let mut cs = Vec::new();
+                        let mut first: Option<Vec<(String, Ty)>> = None;
+                        for c in &o.cases {
+                            let (s, b) = self.pat(c, ty)?;
+                            let mut sorted = b.clone();
+                            sorted.sort_by(|x, y| x.0.cmp(&y.0));
+                            match &first {
+                                None => {
+                                    first = Some(sorted);
+                                    binds.extend(b);
+                                }
+                                Some(f) => {
+                                    if format!("{:?}", f) != format!("{:?}", sorted) {
+                                        return self.bail(p.span(), "the alternatives of an or-pattern bind different variables");
+                                    }
+                                }
+                            }
+                            cs.push(s);
+                        }
+                        cs
+                    } else {
+                        let (s, b) = self.pat(e, ty)?;
+                        binds.extend(b);
+                        vec![s]
+                    };
+                    let mut next = Vec::new();
+                    for a in &alts {
+                        for c in &choices {
+                            let mut v = a.clone();
+                            v.push(c.clone());
+                            next.push(v);
+                        }
+                    }
+                    alts = next;
                 }
-                Ok((format!("({})", parts.join(", ")), binds))
+                let strs: Vec<String> = alts.iter().map(|parts| format!("({})", parts.join(", "))).collect();
+                Ok((strs.join(" | "), binds))
             }
             _ => self.bail(p.span(), "unsupported pattern"),
         }
